@@ -1,2 +1,58 @@
-(* C01 — placeholder while the loader proofs are being written: statements only. *)
-From DV Require Import Wire.Message Spec.Codec.
+(* C01 — untrusted bytes become a message only if spec-valid, and always safely.
+   Statements only; proofs in Proofs/LoaderProofs.v.  What is proved here is the
+   framing half (see the evidence/notes for what remains correspondence-only:
+   validator = specification decoder). *)
+From DV Require Import Lib.Base Wire.Message Spec.Codec Proofs.LoaderProofs.
+From Coq Require Import ZArith.
+Local Open Scope N_scope.
+
+(* Full statement (soundness + completeness against the specification decoder),
+   kept visible; decided today by the correspondence run with the extracted
+   [spec_decode_message] as oracle, not yet by a theorem. *)
+Definition C01_full_statement : Prop :=
+  forall d, 16 <= nlen d ->
+    match demarshal d, spec_decode_message d with
+    | DemMsg m, Some (s, total) => m_header m ++ m_body m = firstn (N.to_nat total) d
+    | DemMsg _, None => False
+    | DemCorrupt _, Some _ => False
+    | _, _ => True
+    end.
+
+(* every message the loader queues passed header and body validation *)
+Theorem C01_accepted_validated : forall le fl hl bl fds d m,
+  load_message le fl hl bl fds d = inl m ->
+  exists fs tys, header_load le fl hl d = inl fs /\ m_fields m = fs /\ validate_body le tys (m_body m) = V_VALID.
+Proof. exact load_message_valid. Qed.
+Print Assumptions C01_accepted_validated.
+
+(* a queued message is exactly the announced prefix of the buffer: nothing outside it is copied *)
+Theorem C01_message_is_prefix : forall le fl hl bl fds d m,
+  load_message le fl hl bl fds d = inl m -> msg_bytes m = firstn (N.to_nat (hl + bl)) d.
+Proof. exact load_message_bytes. Qed.
+Print Assumptions C01_message_is_prefix.
+
+(* the loader terminates within the fuel the model gives it, for every buffer:
+   any fuel above the buffer length yields the same result *)
+Theorem C01_terminates : forall f1 f2 l, (length (l_buf l) < f1)%nat -> (length (l_buf l) < f2)%nat ->
+  queue_messages f1 l = queue_messages f2 l.
+Proof. exact qm_fuel. Qed.
+Print Assumptions C01_terminates.
+
+(* no byte is lost, duplicated or invented by the loader *)
+Theorem C01_conservation : forall f l, consumed (queue_messages f l) ++ l_buf (queue_messages f l) = consumed l ++ l_buf l.
+Proof. exact conservation. Qed.
+Print Assumptions C01_conservation.
+
+(* size limits enforced by the framing decision *)
+Theorem C01_size_limit : forall max d le fl hl bl c, have_message max d = HaveOk le fl hl bl c -> 16 <= hl.
+Proof. exact have_ok_hl. Qed.
+Print Assumptions C01_size_limit.
+
+(* non-vacuity: a concrete valid message is accepted by model and by the specification *)
+Definition ex_msg : bytes := [108;2;0;1; 0;0;0;0; 1;0;0;0; 8;0;0;0; 5;1;117;0; 1;0;0;0].
+Example ex_accept : match demarshal ex_msg with DemMsg _ => True | _ => False end.
+Proof. vm_compute. exact I. Qed.
+Example ex_spec_accept : match spec_decode_message ex_msg with Some (_, 24) => True | _ => False end.
+Proof. vm_compute. exact I. Qed.
+Example ex_reject : match demarshal (firstn 16 ex_msg ++ [5;1;117;0; 0;0;0;0]) with DemCorrupt _ => True | _ => False end.
+Proof. vm_compute. exact I. Qed.
